@@ -40,16 +40,12 @@ class ThreadsimProp:
     ]
 
     def make_context(self, rank, root=None):
-        if root is None:
-            d = tempfile.mkdtemp(prefix=f"verif-{self.id}-{rank}-")
-        else:
-            d = os.path.join(root, f"w{rank}")
-            os.makedirs(d, exist_ok=True)
-        return {"ex": common.Executor("threadsim", d, timeout=180.0), "dir": d}
+        d, own = common.make_work_dir(self.id, rank, root)
+        return {"ex": common.Executor("threadsim", d, timeout=180.0), "dir": d, "own_root": own}
 
     def close_context(self, ctx):
         ctx["ex"].close()
-        shutil.rmtree(ctx["dir"], ignore_errors=True)
+        shutil.rmtree(ctx.get("own_root") or ctx["dir"], ignore_errors=True)
 
     # subclasses: bias, checker, own_classes
     def gen_case(self, rng, tier, index):
